@@ -61,6 +61,30 @@ func init() {
 		}
 		return t
 	})
+	// vSize(lo, hi): a payload size. The engine explores a few representatives (both ends and the AES block
+	// boundary just above lo); when a model does not reproduce natively, the replay driver sweeps the whole
+	// range lo..hi natively (allocator size classes and buffer growth make some sizes special).
+	vreg("vSize", func(p *Path, th *thread, caller *frame, pos token.Pos, fn *ssa.Function, args []Value) Value {
+		lo := int(p.concretize(termArg(args[0]), "vSize lo"))
+		hi := int(p.concretize(termArg(args[1]), "vSize hi"))
+		var reps []int
+		for _, c := range []int{lo, lo + 15, lo + 16, hi} {
+			if c < lo || c > hi {
+				continue
+			}
+			dup := false
+			for _, r := range reps {
+				dup = dup || r == c
+			}
+			if !dup {
+				reps = append(reps, c)
+			}
+		}
+		k := p.choose(len(reps))
+		t := BV(64, uint64(reps[k]))
+		p.nondet = append(p.nondet, NondetRec{Kind: fmt.Sprintf("size:%d:%d", lo, hi), T: t})
+		return t
+	})
 	vreg("vAssume", func(p *Path, th *thread, caller *frame, pos token.Pos, fn *ssa.Function, args []Value) Value {
 		p.assume(termArg(args[0]))
 		return nil
